@@ -15,8 +15,8 @@ CONSTANTS
   AllowCrash = FALSE
   FixJournalNoPS = TRUE
   FixModeOnOpen = TRUE
-  AllowFreeReuse = FALSE
-  AllowFromWal = FALSE
+  AllowFreeReuse = TRUE
+  AllowFromWal = TRUE
   FixModeSwitch = TRUE
   AllowDropDB = TRUE
   AllowRetain = TRUE
